@@ -29,6 +29,8 @@ def _setup():
 def build_target(spec):
     """-> object with .serialize; spec is a module recipe / shipped name / mm database."""
     from sim.engines import pipeline as P
+    if spec['kind'] == 'module' and 'ties' in spec:
+        return ties_module(spec['ties'])
     if spec['kind'] == 'module':
         sc = {'recipe': spec['recipe']} if 'recipe' in spec else {'shipped': spec['shipped']}
         mod, _ = P.materialise(sc)
@@ -40,6 +42,22 @@ def build_target(spec):
         c20.warmup_imports()
         return c20.build_pe(spec['scenario'])
     raise ValueError(spec['kind'])
+
+
+def ties_module(t):
+    """A module in which n memoisation candidates (patterns containing symbols) tie exactly in use count and complexity:
+    whatever breaks the tie decides the Save/Load layout of the optimised output."""
+    from proof_generation.proof import ProofExp
+    from proof_generation.pattern import App, Implies, Symbol
+    from proof_generation.proofs.propositional import Propositional
+    mod = ProofExp(axioms=[Implies(Symbol('tie_ax'), Symbol('tie_ax'))])
+    lib = mod.import_module(Propositional())
+    for i in range(t['n']):
+        a = App(Symbol('s%d_%d' % (t['salt'], i)), Symbol('r%d_%d' % (t['salt'], (i * 7) % 11)))
+        th = lib.imp_refl(a) if i % 2 == 0 else lib.imp_provable(a, lib.imp_refl(a))
+        mod.add_claim(th.conc)
+        mod.add_proof_expression(th)
+    return mod
 
 
 def mm_skeleton(text, target):
